@@ -82,7 +82,9 @@ func identConfigs() []identCfg {
 	return []identCfg{
 		mk("base", func(c *graphql_datasource.SubscriptionConfiguration) {}),
 		mk("url", func(c *graphql_datasource.SubscriptionConfiguration) { c.URL = "wss://sub2.example/graphql" }),
-		mk("header", func(c *graphql_datasource.SubscriptionConfiguration) { c.Header = http.Header{"X-Static": []string{"2"}} }),
+		mk("header", func(c *graphql_datasource.SubscriptionConfiguration) {
+			c.Header = http.Header{"X-Static": []string{"2"}}
+		}),
 		mk("use_sse", func(c *graphql_datasource.SubscriptionConfiguration) { c.UseSSE = true }),
 		mk("sse_method_post", func(c *graphql_datasource.SubscriptionConfiguration) { c.UseSSE = true; c.SSEMethodPost = true }),
 		mk("ws_sub_protocol", func(c *graphql_datasource.SubscriptionConfiguration) { c.WsSubProtocol = "graphql-transport-ws" }),
@@ -212,9 +214,9 @@ func parseHeaders(s string) http.Header {
 
 // ---- planning with the real planner
 type identLab struct {
-	def     *ast.Document
-	cfgs    []identCfg
-	client  *fakeClient
+	def    *ast.Document
+	cfgs   []identCfg
+	client *fakeClient
 }
 
 func newIdentLab() *identLab {
@@ -257,8 +259,8 @@ func (l *identLab) plannerFor(ci int) *plan.Planner {
 		panic(err)
 	}
 	conf := plan.Configuration{
-		DataSources:                []plan.DataSource{ds},
-		DefaultFlushIntervalMillis: 0,
+		DataSources:                  []plan.DataSource{ds},
+		DefaultFlushIntervalMillis:   0,
 		DisableResolveFieldPositions: true,
 		Fields: plan.FieldConfigurations{
 			{TypeName: "Subscription", FieldName: "counter", Path: []string{"counter"}, Arguments: []plan.ArgumentConfiguration{
@@ -305,7 +307,11 @@ type identWriter struct {
 	buf  bytes.Buffer
 }
 
-func (w *identWriter) Write(p []byte) (int, error) { w.mu.Lock(); defer w.mu.Unlock(); return w.buf.Write(p) }
+func (w *identWriter) Write(p []byte) (int, error) {
+	w.mu.Lock()
+	defer w.mu.Unlock()
+	return w.buf.Write(p)
+}
 func (w *identWriter) Flush() error {
 	w.mu.Lock()
 	w.msgs = append(w.msgs, w.buf.String())
@@ -316,11 +322,6 @@ func (w *identWriter) Flush() error {
 func (w *identWriter) Complete()         {}
 func (w *identWriter) Error(data []byte) {}
 func (w *identWriter) Heartbeat() error  { return nil }
-
-type nopErrWriter struct{}
-
-func (nopErrWriter) WriteError(ctx *resolve.Context, err error, res *resolve.GraphQLResponse, w interface{ Write([]byte) (int, error) }) {
-}
 
 func (l *identLab) newCtx(sp identSpec, vars []byte) *resolve.Context {
 	c := resolve.NewContext(context.Background())
